@@ -2,11 +2,12 @@
    commands (engine `select`: C12, C19, C20).  Model only; proofs are in Select_proofs.v.
 
    Mirrors  internal/selection/{selector,build_selection,query_selection,target_matchers}.go,
-            internal/dag/graph.go (GetDependencies/GetDependants/GetAncestors/GetDescendants),
+            internal/dag/graph.go (GetDependencies/GetDependants/GetAncestors/GetDescendants/ResolveTarget),
             internal/cmd/cmds/{deps,rdeps,owners,list}.go, model.PrintSortedLabels.
 
    The model follows the code AFTER the repair of C19-F1..F3 / C20-F1 (visited sets in
-   selectAllAncestorsForBuild, GetAncestors, GetDescendants; label.PrintSorted compacts); the
+   selectAllAncestorsForBuild, GetAncestors, GetDescendants; label.PrintSorted compacts) and of
+   C12-F1 / C20-F2 (a matched alias is filtered like the target it resolves to); the
    path-enumerating versions are kept at the end of the traversal part as history.
 
    Graphs are index-level (Graph.v): node i's in-edges (dependencies, declaration order,
@@ -76,25 +77,48 @@ Definition excl_match (cfg : config) (a : node) : bool :=
 Definition target_filters (cfg : config) (a : node) : bool :=
   type_ok (ctype cfg) a && tags_match cfg a && negb (excl_match cfg a).
 
-(* Selector.nodeMatchesFilters: a non-Target node is only checked against the patterns *)
-Definition node_matches_filters (cfg : config) (a : node) : bool :=
-  match nkind a with
-  | KAlias => matches_patterns (cpats cfg) (nlabel a)
-  | KTarget =>
-      type_ok (ctype cfg) a && matches_patterns (cpats cfg) (nlabel a)
-      && tags_match cfg a && negb (excl_match cfg a)
-  end.
-
-(* nodeMatchesPlatform *)
+(* nodeMatchesPlatform (the node-level test: the one applied to DEPENDENCIES, where an alias
+   always passes and the platform error is raised at the target behind it) *)
 Definition node_matches_platform (cfg : config) (a : node) : bool :=
   match nkind a with
   | KAlias => true
   | KTarget => callplat cfg || match nplats a with [] => true | _ => false end || str_in (cplat cfg) (nplats a)
   end.
 
+(* dag.ResolveTarget: follow alias nodes (a node with exactly one dependency, its `actual`) to
+   the target they transitively point to.  The Go loop is bounded by the number of nodes; under a
+   topological numbering every step goes to a smaller index, so fuel [S i] suffices from i.
+   The result is an alias only when the chain does not end in a target (Go: nil). *)
+Fixpoint resolve (g : graph) (ns : list node) (fuel i : nat) : nat :=
+  match fuel with
+  | 0 => i
+  | S f => match nkind (attr ns i), deps g i with
+           | KAlias, [d] => resolve g ns f d
+           | _, _ => i
+           end
+  end.
+
+(* standsFor: the node whose type, tags and platforms decide whether node i is selected: an alias stands for
+   the target it resolves to, any other node for itself.  The result is an alias exactly when the Go function
+   returns nil (the chain does not end in a target). *)
+Definition stands_for (ns : list node) (g : graph) (i : nat) : nat := resolve g ns (S i) i.
+
+(* Selector.nodeMatchesFilters: the patterns are checked against the node's own label, the type,
+   tag and exclude-tag filters against the target the node stands for; an alias that resolves
+   to no target never passes *)
+Definition node_matches_filters (cfg : config) (ns : list node) (g : graph) (i : nat) : bool :=
+  let t := attr ns (stands_for ns g i) in
+  is_target t &&
+  (type_ok (ctype cfg) t && matches_patterns (cpats cfg) (nlabel (attr ns i))
+   && tags_match cfg t && negb (excl_match cfg t)).
+
+(* nodeMatchesPlatform(standsFor(graph, node)): the platform selector of the target the node stands for *)
+Definition resolved_matches_platform (cfg : config) (ns : list node) (g : graph) (i : nat) : bool :=
+  node_matches_platform cfg (attr ns (stands_for ns g i)).
+
 (* Selector.Match *)
-Definition node_match (cfg : config) (a : node) : bool :=
-  node_matches_filters cfg a && node_matches_platform cfg a.
+Definition node_match (cfg : config) (ns : list node) (g : graph) (i : nat) : bool :=
+  node_matches_filters cfg ns g i && resolved_matches_platform cfg ns g i.
 
 (* ------------------------------------------------------------------ build selection *)
 
@@ -137,8 +161,9 @@ Fixpoint selv_roots (g : graph) (ok : nat -> bool) (rs : list nat) (vis : list n
            end
   end.
 
+(* the nodes the root loop of SelectTargetsForBuild does not skip *)
 Definition roots (cfg : config) (ns : list node) (g : graph) : list nat :=
-  filter (fun i => node_match cfg (attr ns i)) (seq 0 (size g)).
+  filter (node_match cfg ns g) (seq 0 (size g)).
 
 Definition plat_okb (cfg : config) (ns : list node) (i : nat) : bool :=
   node_matches_platform cfg (attr ns i).
@@ -163,37 +188,35 @@ Definition select_for_build (cfg : config) (ns : list node) (g : graph) : sel_re
 Definition selected_count (ns : list node) (s : list nat) : nat :=
   length (filter (fun i => is_target (attr ns i)) s).
 
-(* "(N targets not matching <platform> host)" *)
+(* "(N targets not matching <platform> host)": the distinct targets that the nodes skipped by the root loop
+   stand for (the platformSkipped map, keyed by the label of standsFor(node)) *)
 Definition platform_skipped (cfg : config) (ns : list node) (g : graph) : nat :=
-  length (filter (fun i => node_matches_filters cfg (attr ns i) && negb (node_matches_platform cfg (attr ns i)))
-                 (seq 0 (size g))).
+  length (nodup Nat.eq_dec
+            (map (stands_for ns g)
+                 (filter (fun i => node_matches_filters cfg ns g i && negb (resolved_matches_platform cfg ns g i))
+                         (seq 0 (size g))))).
 
 (* query-side selection (SelectTargets, used by `list`): filters and platform, no closure *)
 Definition select_targets (cfg : config) (ns : list node) (g : graph) : list nat :=
-  filter (fun i => node_match cfg (attr ns i)) (seq 0 (size g)).
+  filter (node_match cfg ns g) (seq 0 (size g)).
 
-(* --- the property's reading of a root (C12): the pattern names the node; the tag,
-   exclude-tag, type and platform filters are those of the TARGET the node stands for (an
-   alias stands for the target it resolves to).  The code instead applies no filter at all
-   to an alias that matches the pattern (C12-F1). *)
-Fixpoint resolve (g : graph) (ns : list node) (fuel i : nat) : nat :=
-  match fuel with
-  | 0 => i
-  | S f => match nkind (attr ns i), deps g i with
-           | KAlias, d :: _ => resolve g ns f d
-           | _, _ => i
-           end
-  end.
+(* --- the property's reading (C12, C20): a pattern names nodes; the tag, exclude-tag, type and
+   platform filters of a node are those of the TARGET the node stands for (an alias stands for
+   the target it resolves to).  Since the repair of C12-F1 / C20-F2 this is the code's rule
+   ([node_match], Select_proofs.node_match_spec); it is kept as the specification the theorems
+   are stated with. *)
+Definition passes_filters (cfg : config) (ns : list node) (g : graph) (i : nat) : bool :=
+  let t := attr ns (stands_for ns g i) in
+  is_target t && target_filters cfg t && node_matches_platform cfg t.
 
 Definition spec_rootb (cfg : config) (ns : list node) (g : graph) (i : nat) : bool :=
-  matches_patterns (cpats cfg) (nlabel (attr ns i)) &&
-  (let t := attr ns (resolve g ns (S i) i) in
-   is_target t && target_filters cfg t && node_matches_platform cfg t).
+  matches_patterns (cpats cfg) (nlabel (attr ns i)) && passes_filters cfg ns g i.
 
 Definition spec_roots (cfg : config) (ns : list node) (g : graph) : list nat :=
   filter (spec_rootb cfg ns g) (seq 0 (size g)).
 
-(* the selection a repaired selector would compute: same traversal, roots of the property's reading *)
+(* the same traversal started from the roots of the property's reading (specification-level selection; equal to
+   [select_for_build]: Select_proofs.select_for_build_is_spec) *)
 Definition select_for_build_spec (cfg : config) (ns : list node) (g : graph) : sel_result :=
   match selv_roots g (plat_okb cfg ns) (spec_roots cfg ns g) [] with
   | None => PlatformError
@@ -362,8 +385,8 @@ Fixpoint compact_strs (l : list str) : list str :=
 Definition print_sorted (ns : list node) (l : list nat) : list str := compact_strs (sorted_labels ns l).
 
 (* Selector.FilterNodes *)
-Definition filter_nodes (cfg : config) (ns : list node) (l : list nat) : list nat :=
-  filter (fun i => node_match cfg (attr ns i)) l.
+Definition filter_nodes (cfg : config) (ns : list node) (g : graph) (l : list nat) : list nat :=
+  filter (node_match cfg ns g) l.
 
 (* GetAncestors / GetDescendants *)
 Definition deps_t (g : graph) (n : nat) : list nat := fst (ancestors_visited g n).
@@ -371,18 +394,18 @@ Definition rdeps_t (g : graph) (n : nat) : list nat := fst (descendants_visited 
 
 (* grog deps [-t] [--target-type=..] <n> *)
 Definition deps_query (cfg : config) (ns : list node) (g : graph) (n : nat) (transitive : bool) : list str :=
-  print_sorted ns (filter_nodes (query_cfg cfg) ns (if transitive then deps_t g n else deps g n)).
+  print_sorted ns (filter_nodes (query_cfg cfg) ns g (if transitive then deps_t g n else deps g n)).
 
 (* grog rdeps [-t] [--target-type=..] <n> *)
 Definition rdeps_query (cfg : config) (ns : list node) (g : graph) (n : nat) (transitive : bool) : list str :=
-  print_sorted ns (filter_nodes (query_cfg cfg) ns (if transitive then rdeps_t g n else dependants g n)).
+  print_sorted ns (filter_nodes (query_cfg cfg) ns g (if transitive then rdeps_t g n else dependants g n)).
 
 (* the same with the node list de-duplicated before filtering (equal to the above as lists of lines; kept for the
    check, which compares the two) *)
 Definition deps_query_dedup (cfg : config) (ns : list node) (g : graph) (n : nat) (transitive : bool) : list str :=
-  print_sorted ns (filter_nodes (query_cfg cfg) ns (dedup_nat (if transitive then deps_t g n else deps g n))).
+  print_sorted ns (filter_nodes (query_cfg cfg) ns g (dedup_nat (if transitive then deps_t g n else deps g n))).
 Definition rdeps_query_dedup (cfg : config) (ns : list node) (g : graph) (n : nat) (transitive : bool) : list str :=
-  print_sorted ns (filter_nodes (query_cfg cfg) ns (dedup_nat (if transitive then rdeps_t g n else dependants g n))).
+  print_sorted ns (filter_nodes (query_cfg cfg) ns g (dedup_nat (if transitive then rdeps_t g n else dependants g n))).
 
 (* filepath.Join(package, input) for clean relative paths (no ".", "..", "//"); the
    workspace root prefix is the same on both sides of the comparison and is dropped *)
